@@ -959,18 +959,19 @@ fn range_ev(out: &mut Out, op: &str, a: u64, b: u64, s: i64, incl: i64, len: Res
 
 /// the adaptors every iterator offers (nth, skip, step_by, count, last, size_hint) over a short range: they must agree
 /// with plain iteration and never panic
-fn adapt_ev<I: Iterator<Item = u64> + Clone>(out: &mut Out, op: &str, a: u64, b: u64, s: i64, incl: i64, it: I, cnt: usize) {
+fn adapt_ev<T, I: Iterator<Item = T> + Clone>(out: &mut Out, op: &str, a: u64, b: u64, s: i64, incl: i64, it: I, f: fn(T) -> u64, cnt: usize) {
+    // (the adaptors are called on the range type itself, so that its own overrides of nth / size_hint / ... run)
     let ks: Vec<u64> = [0usize, 1, 2, cnt.saturating_sub(1), cnt, cnt + 1, cnt + 5, 3 * cnt + 7].iter().map(|&k| k as u64).collect();
     let list = |v: &[Res]| format!("[{}]", v.iter().map(|r| r.json()).collect::<Vec<_>>().join(","));
-    let nth: Vec<Res> = ks.iter().map(|&k| { let mut i = it.clone(); r_opt(move || i.nth(k as usize)) }).collect();
-    let skip: Vec<Res> = ks.iter().map(|&k| { let i = it.clone(); r_opt(move || i.skip(k as usize).next()) }).collect();
+    let nth: Vec<Res> = ks.iter().map(|&k| { let mut i = it.clone(); r_opt(move || i.nth(k as usize).map(f)) }).collect();
+    let skip: Vec<Res> = ks.iter().map(|&k| { let i = it.clone(); r_opt(move || i.skip(k as usize).next().map(f)) }).collect();
     let m = 1 + (a >> 12) as usize % 3 + (cnt % 2);
-    let (stepped, stepk) = match catch({ let i = it.clone(); move || i.step_by(m).take(RANGE_CAP + 8).collect::<Vec<u64>>() }) {
+    let (stepped, stepk) = match catch({ let i = it.clone(); move || i.step_by(m).take(RANGE_CAP + 8).map(f).collect::<Vec<u64>>() }) {
         Some(v) => (v, "ok"),
         None => (vec![], "panic"),
     };
     let count = { let i = it.clone(); r_u64(move || i.count() as u64) };
-    let last = { let i = it.clone(); r_opt(move || i.last()) };
+    let last = { let i = it.clone(); r_opt(move || i.last().map(f)) };
     let (lo, hi) = catch({ let i = it.clone(); move || i.size_hint() }).unwrap_or((usize::MAX, Some(0)));
     out.emit(
         Ev::new(op)
@@ -1000,11 +1001,11 @@ fn page_range_s<S: PageSize>(out: &mut Out, s: i64, a: u64, b: u64, iterate: boo
     if iterate {
         let (n0, k0) = drain(rg.map(|p| p.start_address().as_u64()));
         if k0 == "ok" && n0.len() <= RANGE_CAP {
-            adapt_ev(out, "pg_range_adapt", a, b, s, 0, rg.map(|p| p.start_address().as_u64()), n0.len());
+            adapt_ev(out, "pg_range_adapt", a, b, s, 0, rg, |p: Page<S>| p.start_address().as_u64(), n0.len());
         }
         let (n1, k1) = drain(ri.map(|p| p.start_address().as_u64()));
         if k1 == "ok" && n1.len() <= RANGE_CAP {
-            adapt_ev(out, "pg_range_adapt", a, b, s, 1, ri.map(|p| p.start_address().as_u64()), n1.len());
+            adapt_ev(out, "pg_range_adapt", a, b, s, 1, ri, |p: Page<S>| p.start_address().as_u64(), n1.len());
         }
     }
 }
@@ -1025,11 +1026,11 @@ fn frame_range_s<S: PageSize>(out: &mut Out, s: i64, a: u64, b: u64, iterate: bo
     if iterate {
         let (n0, k0) = drain(rg.map(|p| p.start_address().as_u64()));
         if k0 == "ok" && n0.len() <= RANGE_CAP {
-            adapt_ev(out, "fr_range_adapt", a, b, s, 0, rg.map(|p| p.start_address().as_u64()), n0.len());
+            adapt_ev(out, "fr_range_adapt", a, b, s, 0, rg, |p: PhysFrame<S>| p.start_address().as_u64(), n0.len());
         }
         let (n1, k1) = drain(ri.map(|p| p.start_address().as_u64()));
         if k1 == "ok" && n1.len() <= RANGE_CAP {
-            adapt_ev(out, "fr_range_adapt", a, b, s, 1, ri.map(|p| p.start_address().as_u64()), n1.len());
+            adapt_ev(out, "fr_range_adapt", a, b, s, 1, ri, |p: PhysFrame<S>| p.start_address().as_u64(), n1.len());
         }
     }
 }
